@@ -93,6 +93,9 @@ def emitted (cfg : Cfg) (hasResults : Bool) (body : List Stmt) : List Kind :=
 structure MSt where
   calls : String → List (List Val)
   invoked : List (String × List Val)
+  /-- (ghost) how many records of its method each invocation of a user function could already see
+  through `<M>Calls()` – the mock may be re-entered from inside the function -/
+  seen : List Nat := []
 
 def setCalls (f : String → List (List Val)) (m : String) (v : List (List Val)) : String → List (List Val) :=
   fun k => if k = m then v else f k
@@ -139,7 +142,9 @@ def execKind (fr : Frame) (e : Exec) (k : Kind) : Exec :=
     | .nilReturnZero => if fr.func.isNone then { e with out := .returned fr.zero } else e
     | .forward =>
       match fr.func with
-      | some f => { e with st := { e.st with invoked := e.st.invoked ++ [(fr.method, fr.args)] }, out := .returned (f fr.args) }
+      | some f => { e with st := { e.st with invoked := e.st.invoked ++ [(fr.method, fr.args)],
+                                                seen := e.st.seen ++ [(e.st.calls fr.method).length] },
+                           out := .returned (f fr.args) }
       | none => { e with out := .panicked "runtime error: invalid memory address or nil pointer dereference" }
     | .unknown s => { e with out := .panicked ("unmodelled: " ++ s) }
   | _ => e
